@@ -1,5 +1,6 @@
 #!/bin/bash
 # usage: harvest.sh <PROP> <tier> <seed-from> <seed-to>   collect every signature (known or not) seen per seed.
+# AXSIM_BIN=<path> uses that binary instead of sim/target/release/axsim (copy it once for a long campaign).
 # Runs from a private copy of the built binary and a private VERIF_DIR, so it is not disturbed by later edits
 # of /verif/sim or /repo. Prints "seed exit unlisted=[...] known=[...]". Used for the false-alarm campaign.
 P=$1; T=$2; A=$3; B=$4
@@ -7,7 +8,7 @@ cd /verif || exit 2
 D=/tmp/campaign-$P-$$
 mkdir -p $D
 if [ -z "$NOBUILD" ]; then ./check build >/dev/null || exit 2; fi
-cp sim/target/release/axsim $D/axsim; cp known_findings.json $D/
+cp ${AXSIM_BIN:-sim/target/release/axsim} $D/axsim; cp known_findings.json $D/
 for s in $(seq $A $B); do
   env VERIF_SEED=$s VERIF_MAX_MINIMISE=0 VERIF_DIR=$D ${WORKERS:+VERIF_WORKERS=$WORKERS} $D/axsim run $P $T >$D/log 2>&1; rc=$?
   python3 - "$D" "$P" "$s" "$rc" <<'PY'
